@@ -579,8 +579,10 @@ def run_one(ctx, h, known_keys, replay_root):
         r.stats = pr["stats"]
         r.solver_s = pr["stats"].get("solver_s", 0.0)
         if not pr["results"]:
-            r.status = "error" if rc not in (-9, 137) else "inconclusive"
-            r.detail = "no results from cbmc (rc=%s): %s %s" % (rc, "; ".join(pr["errors"])[:800], err[-800:])
+            blob = "; ".join(pr["errors"]) + err
+            oom = rc in (-9, 137) or "ut of memory" in blob or "bad_alloc" in blob
+            r.status = "inconclusive" if oom else "error"       # a resource limit is never success and never a machinery fault
+            r.detail = ("memory limit reached: " if oom else "") + "no results from cbmc (rc=%s): %s %s" % (rc, "; ".join(pr["errors"])[:800], err[-800:])
             return r
         failed = []
         unknown = []
